@@ -16,6 +16,7 @@ CONSTANTS
   StaleTicks = 6
   MaxNow = 40
   FixD1 = TRUE
+  SimDepth = 0
   Msgs <- MsgsA
   Apps <- AppsSmall
 CONSTRAINT TimeBound
